@@ -21,6 +21,7 @@ def plan(tier, seed):
     import itertools
 
     seqs = [{'shared_jit': list(p_)} for p_ in itertools.permutations(['2', '2.0', '2+0j', '-1', 'neg', '-1.0'], 3)]
+    seqs += [{'shared_jit_inv': list(p_)} for p_ in itertools.permutations(['plain', 'precond', 'onestep'], 3)] + [{'shared_jit_inv': ['plain', 'precond']}, {'shared_jit_inv': ['precond', 'plain']}]
     return [
         {'name': 'shared_jit', 'target': TARGET, 'x64': False, 'cases': seqs, 'chunk': 10},
         {'name': 'x32', 'target': TARGET, 'x64': False, 'cases': U.cases(tier, ('f32',), modulus=8)},
@@ -88,6 +89,12 @@ def oracle(desc, op, exact):
                 probs.append((f'{label}-values', f'max diff {P.maxdiff(P.flat(yj), P.flat(y)):.4g} on vector {k}'))
         if k == 0 and probs:
             break
+    # reduce() evaluated inside a filtering jit (operator as argument) must give the map of the eagerly reduced operator
+    if not masked and not solver:
+        yr = P.lib('reduce-then-mv', lambda: op.reduce().mv(xs[0]))
+        yrj = P.lib('reduce-under-filter_jit', lambda: equinox.filter_jit(lambda o, x: o.reduce().mv(x))(op, xs[0]))
+        if P.actual_struct_sig(yrj) != P.actual_struct_sig(yr) or not P.close(P.flat(yrj), P.flat(yr), tol):
+            probs.append(('reduce-under-jit', f'max diff {P.maxdiff(P.flat(yrj), P.flat(yr)):.4g}; structures {P.actual_struct_sig(yrj)} vs {P.actual_struct_sig(yr)}'))
     # order of first use: a FRESH copy of a specimen applied under jit first, eagerly afterwards
     if desc['form'] == 'single':
         fresh = P.lib('build', U._build, desc['a'], desc['dt'])
@@ -169,7 +176,44 @@ def landscape_case(case):
     return probs
 
 
+def shared_jit_inv_case(case):
+    """ONE filter_jit function receives lazy inverses of the same operator created under configurations that differ in one
+    solver setting; each result must equal eager application of that very inverse."""
+    import equinox
+    import jax
+    import jax.numpy as jnp
+    import lineax as lx
+    import numpy as np
+
+    from furax import Config
+    from furax._base.dense import DenseBlockDiagonalOperator
+    from mc import probe as P
+
+    f32 = jnp.float32
+    a = jax.ShapeDtypeStruct((3,), f32)
+    S = DenseBlockDiagonalOperator(jnp.asarray([[4, 1, 0], [1, 3, 1], [0, 1, 2]], f32), a, 'ij,j->i')
+    Mi = DenseBlockDiagonalOperator(jnp.asarray(np.linalg.inv(np.array([[4, 1, 0], [1, 3, 1], [0, 1, 2.0]])), f32), a, 'ij,j->i')
+    cfgs = {'plain': dict(solver=lx.CG(rtol=1e-6, atol=1e-6, max_steps=2)),
+            'precond': dict(solver=lx.CG(rtol=1e-6, atol=1e-6, max_steps=2), solver_options={'preconditioner': Mi}),
+            'onestep': dict(solver=lx.CG(rtol=1e-6, atol=1e-6, max_steps=1))}
+    fj = equinox.filter_jit(lambda o, x: o.mv(x))
+    x = jnp.asarray([1.0, -2.0, 0.5], f32)
+    probs = []
+    for name in case['shared_jit_inv']:
+        with Config(solver_callback=lambda s: None, **cfgs[name]):
+            inv = S.I
+        with P.quiet():
+            ye = np.asarray(inv.mv(x))
+            yj = np.asarray(fj(inv, x))
+        if not np.allclose(yj, ye, rtol=1e-4, atol=1e-5):
+            probs.append(('shared-filter_jit-inverse', f'sequence {case["shared_jit_inv"]}: the inverse created under {name!r} gives {yj} through the shared jitted function but {ye} eagerly'))
+            break
+    return probs
+
+
 def shared_jit_case(case):
+    if 'shared_jit_inv' in case:
+        return shared_jit_inv_case(case)
     """ONE filter_jit function receives, in the given order, operators that differ only in the Python kind of a scalar factor.
     Each result must equal eager application (values, dtype) whatever was compiled before."""
     import equinox
